@@ -289,6 +289,13 @@ func (c *columnKey) Apply(chunk commit.Chunk, r *commit.Reader) {
 		case commit.Put:
 			value := string(r.Bytes())
 
+			// If the row is re-keyed, its previous key must stop resolving
+			if fill.Contains(uint32(offset)) && data[offset] != value {
+				c.lock.Lock()
+				delete(c.seek, data[offset])
+				c.lock.Unlock()
+			}
+
 			fill[offset>>6] |= 1 << (offset & 0x3f)
 			data[offset] = value
 			c.lock.Lock()
